@@ -17,7 +17,7 @@ from vf.sim.scenario import Sim
 
 LEVEL = "exploration"
 RULE = ("matrix: api major {0,1,2,3,4,2^32-1} x minor {0,9,10,2^32-1} x API-hello name {equal, other, case-variant, prefix, unicode, empty} x "
-        "noise-hello name {same set + absent} x invalid_password x login x password set/unset x expected name set/unset x framing x response "
+        "noise-hello name {same set + absent} x invalid_password x login x password set/unset x expected name set/unset (lower-case, mixed-case, upper-case, non-ASCII spellings; constructor or setter) x framing x response "
         "packaging {separate chunks, one chunk, split mid-frame, ConnectResponse before HelloResponse, HelloResponse twice, one chunk with a DisconnectRequest / garbage right behind the last answer}; quick rotates minor/"
         "password through the rows, thorough takes the full product. Non-trivial = connect() ran to an outcome that was judged; distinct = "
         "(row of the matrix abstracted to condition truth values, packaging, framing, outcome class)")
@@ -31,6 +31,17 @@ MIN_EVALS = {"quick": 2000, "thorough": 20000}
 
 EXPECTED = "livingroom"
 NAMES = {"equal": EXPECTED, "other": "kitchen", "case": "LivingRoom", "prefix": "livingroo", "unicode": "wohnzimmer-ü", "empty": ""}
+# the configured name itself is not always lower-case ASCII: names are compared verbatim, so a mixed-case or non-ASCII expected name accepts
+# exactly the device that sends the same spelling
+EXPECTED_FORMS = ("livingroom", "Kitchen-Sensor", "GARAGE", "Wohnzimmer-Ü", "straße")
+
+
+def names_for(row: dict[str, Any]) -> dict[str, str]:
+    exp = row.get("expected", EXPECTED)
+    if exp == EXPECTED:
+        return NAMES
+    case = exp.lower() if exp.lower() != exp else exp.upper()
+    return {"equal": exp, "other": "kitchen", "case": case, "prefix": exp[:-1], "unicode": exp.casefold() + "-ü", "empty": ""}
 PSK = bytes(range(1, 33))
 PACKAGINGS = ("separate", "one-chunk", "split-mid-frame", "connect-before-hello", "hello-twice", "one-chunk+peer-disconnect", "one-chunk+garbage")
 MAJORS = (0, 1, 2, 3, 4, 2**32 - 1)
@@ -48,11 +59,11 @@ def run_case(row: dict[str, Any]) -> dict[str, Any]:
     login = row["login"]
     pk = row["packaging"]
     with Sim() as sim:
-        cfg = DeviceConfig(name="node", api_major=row["major"], api_minor=row["minor"], hello_name=NAMES[row["api_name"]],
+        cfg = DeviceConfig(name="node", api_major=row["major"], api_minor=row["minor"], hello_name=names_for(row)[row["api_name"]],
                            invalid_password=row["invalid_password"])
         if noise:
             cfg.noise_psk = PSK
-            cfg.noise_name = None if row["noise_name"] == "absent" else NAMES[row["noise_name"]].encode()
+            cfg.noise_name = None if row["noise_name"] == "absent" else names_for(row)[row["noise_name"]].encode()
         if pk in ("one-chunk", "split-mid-frame"):
             cfg.coalesce_replies = True
             if pk == "split-mid-frame":
@@ -106,16 +117,16 @@ def run_case(row: dict[str, Any]) -> dict[str, Any]:
             kw["noise_psk"] = base64.b64encode(PSK).decode()
         via = row.get("expected_via", "constructor")
         if row["expected_set"] and via == "constructor":
-            kw["expected_name"] = EXPECTED
+            kw["expected_name"] = row.get("expected", EXPECTED)
         cli = sim.client("10.0.0.1", 6053, row["password"], **kw)
         if row["expected_set"] and via == "setter-before-start":
-            cli.expected_name = EXPECTED
+            cli.expected_name = row.get("expected", EXPECTED)
         if via == "setter-between-phases":
             # the expected name is configured (public setter) after the socket is open and before the session is set up
             async def two_phase() -> None:
                 await cli.start_connection(on_stop=sim.on_stop_cb())
                 if row["expected_set"]:
-                    cli.expected_name = EXPECTED
+                    cli.expected_name = row.get("expected", EXPECTED)
                 await cli.finish_connection(login=login)
             call = sim.call("connect", two_phase)
         else:
@@ -145,15 +156,15 @@ def judge(row: dict[str, Any], o: dict[str, Any]) -> list[tuple[str, str]]:
 
     out: list[tuple[str, str]] = []
     noise = row["framing"] == "noise"
-    exp = EXPECTED if row["expected_set"] else None
+    exp = row.get("expected", EXPECTED) if row["expected_set"] else None
     compatible = row["major"] <= 2
-    api_name = NAMES[row["api_name"]]
+    api_name = names_for(row)[row["api_name"]]
     api_name_ok = exp is None or api_name == exp
     api_name_unjudged = exp is not None and api_name == ""
     noise_name = None
     noise_name_ok = True
     if noise and row["noise_name"] != "absent":
-        noise_name = NAMES[row["noise_name"]]
+        noise_name = names_for(row)[row["noise_name"]]
         noise_name_ok = exp is None or noise_name == exp
     auth_ok = (not row["login"]) or (not row["invalid_password"])
     well_formed = row["packaging"] in ("separate", "one-chunk", "split-mid-frame") or \
@@ -225,6 +236,11 @@ def rows(ctx: Ctx) -> Any:
             i += 1
             yield i, {"framing": framing, "major": 1, "minor": 10, "api_name": api_name, "noise_name": noise_name, "invalid_password": False, "login": login,
                       "expected_set": True, "packaging": "separate", "password": "pw", "expected_via": via}
+        # expected names that are not lower-case ASCII, through the constructor and the setter
+        for exp, via, api_name, noise_name in itertools.product(EXPECTED_FORMS[1:], ("constructor", "setter-before-start"), NAMES, noise_names):
+            i += 1
+            yield i, {"framing": framing, "major": 1, "minor": 10, "api_name": api_name, "noise_name": noise_name, "invalid_password": False, "login": bool(i % 2),
+                      "expected_set": True, "packaging": ("separate", "one-chunk")[i % 2], "password": "pw", "expected_via": via, "expected": exp}
 
 
 def shard(ctx: Ctx) -> None:
@@ -242,7 +258,7 @@ def shard(ctx: Ctx) -> None:
         res.count(f"packaging/{row['packaging']}")
         exp = row["expected_set"]
         res.sig(row["framing"], min(row["major"], 5), row["api_name"] if exp else "-", row["noise_name"] if exp else "-",
-                row["invalid_password"] and row["login"], row["packaging"], cls, row.get("expected_via"))
+                row["invalid_password"] and row["login"], row["packaging"], cls, row.get("expected_via"), row.get("expected"))
         if exp and row["api_name"] == "empty":
             res.count(f"unjudged/empty-api-hello-name-with-expected-name/{o['outcome']}")
         # device-side view of the client's hello/login (bonus wire check)
